@@ -354,6 +354,8 @@ def _rm_elem_sites(facts, it, r, sub=()):
     'C04': 'subtracting anything but the remove context removes unobserved adds; not pruning keeps a removed member visible',
     'C05': 'same for keys; without the nested reset everything the remover saw under a surviving key stays',
     'C08': 'a deferred remove is replayed through this routine',
+    'C02': 'merge replays the other side\'s pending removes through this routine (DEF-MERGE): merge of states holding pending removes '
+           'is a join only if the routine subtracts exactly the remove context',
     'C03': 'the merge of the remover\'s state drops exactly what the remove context covers and keeps the rest: the remove delivered '
            'as an op must leave the same reads',
 }, floor=2)
@@ -363,7 +365,7 @@ def rm(ctx):
     facts = ctx.facts
     for inst, adt, _, _ in TYPES:
         r = roles(facts, adt)
-        props = ['C04', 'C08', 'C03'] if inst == 'orswot' else ['C05', 'C08', 'C03']
+        props = ['C04', 'C08', 'C03', 'C02'] if inst == 'orswot' else ['C05', 'C08', 'C03', 'C02']
         rms = rm_routines(facts, adt)
         if not rms:
             ctx.shape(inst, None, 'no remove routine found (see DEF-DECIDE)', props=props)
@@ -471,6 +473,7 @@ def rm(ctx):
     'C05': 'same for Map key removes',
     'C08': 'the pending table is keyed by that clock',
     'C03': 'the merge of the remover\'s state removes exactly those members under exactly that context',
+    'C20': 'a remove filed under another clock or for other members leaves different pending tables on replicas with equal knowledge',
 }, floor=2)
 def rm_call(ctx):
     """apply(Rm{clock, elements}) hands the op's elements and the op's clock to the remove routine on every path."""
@@ -481,7 +484,7 @@ def rm_call(ctx):
         rm_uids = set(b.base_uid for b, _, _ in rm_routines(facts, adt))
         vn = variants(facts, op_adt)
         rc = Reach(facts, body, Evaluator(facts, bool_atom=discr_atom_of_param(2), assumption={'variant': vn.index('Rm')}))
-        props = ['C08', 'C03', EL[inst]]
+        props = ['C08', 'C03', 'C20', EL[inst]]
         if body.base_uid in rm_uids:
             # the remove routine is written inline in apply (or seen through the helper-inlining view): the clock it
             # decides on / subtracts and the elements it ranges over must be the op's own fields
@@ -600,6 +603,7 @@ def _reexam_ok(facts, it, r, rc, start_blocks):
     'C08': 'without re-examination after clock growth the late add that a pending remove covers stays forever',
     'C20': 'a pending remove that became covered is never dropped',
     'C03': 'remove and add delivered as ops in the wrong order must end where the merge of the two writers\' states ends: the add gone',
+    'C02': 'merge ends with the re-examination (states holding pending removes are in the quantifier): without it a+b keeps what b+a removes',
 }, floor=4, inst_filter=ORS_MAP)
 def def_reexam(ctx):
     """After every growth of the replica clock (gated apply arm, merge) every path re-examines the pending removes."""
@@ -655,6 +659,7 @@ def def_reexam(ctx):
     'C20': 'if the table is not emptied before re-applying, covered removes are never dropped',
     'C08': 're-applied removes that are still ahead must be re-deferred into a fresh table, not duplicated',
     'C03': 'same as DEF-REEXAM: the replay is what makes op delivery in the wrong order agree with the merged states',
+    'C02': 'same as DEF-REEXAM: the replay run at the end of merge',
 }, floor=2, inst_filter=ORS_MAP)
 def def_take(ctx):
     """The re-examination routine empties the pending table before replaying every entry of it through the remove routine."""
@@ -744,6 +749,7 @@ def def_take(ctx):
     'C08': 'pending removes must travel inside merged states',
     'C03': 'op delivery of the remove would have left the same pending remove here',
     'C02': 'a merge that loses (or only files) the other side\'s pending removes is order dependent: a+b keeps what b+a removes',
+    'C20': 'replicas with equal knowledge must hold the same pending removes',
 }, floor=2, inst_filter=ORS_MAP)
 def def_merge(ctx):
     """merge replays every (clock, elements) of other's pending table through self's remove routine."""
